@@ -19,7 +19,7 @@
      Rotate(ok)      Database.close(ok) of the file being written (moved from the fast path to the working directory),
                      which becomes the "other" file B (the reloadDBName of a restart); a fresh file A is opened
      Merge(c0,n0)    A.mergeHistory(B, c0, n0)                   (prepRestartRun; A is the freshly opened file)
-     Split(K)        A.splitDatabase(K, label)                   (B becomes the backup holding everything)
+     Split(ks)       A.splitDatabase(ks, label)  ks = the steps to keep in any order (B becomes the backup holding everything)
      Close(ok, via)  Database.close(ok), or Database.__exit__ at the end of a `with` block (ok = no exception passing)
 
    Queries are state functions (Obs): Steps = list(genTimeSteps()), Names = keys(), has = hasTimeStep,
@@ -222,15 +222,17 @@ Merge(c0, n0) ==
     /\ A' = [A EXCEPT !.snaps = SelectSeq(B.snaps, LAMBDA s : PairLess(Pair(s), <<c0, n0>>))]
     /\ UNCHANGED <<live, loc, par, now, B, wlog>> /\ Ok([n |-> "Merge", c |-> c0, t |-> n0])
 
-\* K: a non-empty set of pairs that have an unlabelled snapshot
-Split(K) ==
-    /\ Writable /\ B.st = "none" /\ K # {} /\ K \subseteq PlainPairs(A)
+\* ks: the list handed to splitDatabase -- the pairs to keep (each has an unlabelled snapshot), without repetition, in ANY
+\* order; the result depends on the set only (the smallest kept cycle becomes cycle 0 wherever it stands in the list)
+Split(ks) ==
+    LET K == {ks[i] : i \in 1..Len(ks)} IN
+    /\ Writable /\ B.st = "none" /\ K # {} /\ K \subseteq PlainPairs(A) /\ Len(ks) = Cardinality(K)
     /\ LET minC == Min({pr[1] : pr \in K})
            kept == SelectSeq(A.snaps, LAMBDA s : s.lab = "" /\ Pair(s) \in K) IN
        /\ A' = [A EXCEPT !.snaps = [i \in 1..Len(kept) |-> [kept[i] EXCEPT !.c = @ - minC, !.off = @ + minC]]]
        /\ B' = [st |-> "closed", ok |-> FALSE, snaps |-> A.snaps]
     /\ UNCHANGED <<live, loc, par, now, wlog>>
-    /\ Ok([n |-> "Split", k |-> SetToSortSeq(K, LAMBDA p, q : PairLess(p, q))])
+    /\ Ok([n |-> "Split", k |-> ks])
 
 \* via = "close": Database.close(ok);  via = "exit": leaving `with db:` -- Database.__exit__ closes as successful iff no
 \* exception is passing through (ok = FALSE: an exception is)
@@ -245,7 +247,7 @@ Mutate == \/ \E o \in Obj, p \in Par, v \in Val : Assign(o, p, v)
 DbStep == \/ \E l \in LabSet : Write(l) \/ WriteRefused(l)
           \/ \E ok \in BOOLEAN : Rotate(ok) \/ Close(ok, "close") \/ Close(ok, "exit")
           \/ \E pr \in Pairs : Merge(pr[1], pr[2])
-          \/ \E K \in SUBSET PlainPairs(A) : Split(K)
+          \/ \E K \in SUBSET PlainPairs(A) : \E ks \in SetToSeqs(K) : Split(ks)
 LoadStep == \E pr \in Pairs, l \in LabSet, via \in LoadVias : Load(pr[1], pr[2], l, via)
 Next == Mutate \/ DbStep
 NextL == Next \/ LoadStep
